@@ -214,6 +214,9 @@ func takeSample(n *hcluster.Node) (s sample) {
 	}
 	rs := st["raft"].(map[string]any)
 	s.CmdIdx = rs["transport"].(map[string]any)["command_commit_index"].(uint64)
+	if v, ok := rs["last_log_index"].(int64); ok && v > 0 {
+		s.LastLog = uint64(v)
+	}
 	switch v := rs["last_contact"].(type) {
 	case int64:
 		s.ContactMs = float64(v)
@@ -331,6 +334,10 @@ func runScenario(caseNo int, seed int64, tier, dir string) (res scnResult) {
 		kind = "lin-term-change"
 		res.Kind = kind
 	}
+	if caseNo >= catchUpBase {
+		kind = "catch-up"
+		res.Kind = kind
+	}
 	installHook()
 	installLinHooks()
 	defer os.RemoveAll(dir)
@@ -429,6 +436,8 @@ func runScenario(caseNo int, seed int64, tier, dir string) (res scnResult) {
 		scnLinApply(w, r, n1)
 	case "lin-term-change":
 		scnLinTerm(w, r, caseNo, seed, n1, n2)
+	case "catch-up":
+		scnCatchUp(w, r, caseNo-catchUpBase, n1, n2, n3)
 	}
 	return res
 }
